@@ -82,7 +82,9 @@ func Vals(n ast.Node) [][2]string {
 var SpanExtra = map[string]bool{"File.ShadowEntry": true}
 
 // DumpSpans serialises a tree for the Lean span model:
-//   node := "0" slot | "N" slot kind id nvals (name value)* nkids node*
+//
+//	node := "0" slot | "N" slot kind id nvals (name value)* nkids node*
+//
 // and returns the non-nil nodes in the same (preorder) order.
 func (d *Dumper) DumpSpans(slot string, n ast.Node) (string, []ast.Node) {
 	d.sb.Reset()
